@@ -456,17 +456,19 @@ class DifferentialEvolutionDriver(Driver):
                 fun = obj
             else:
                 constraint_violations = np.array([])
+                # the constraint values are driver-scaled, so compare them with the scaled bounds.
+                lower_s, upper_s, equals_s = self._autoscaler.get_bounds_scaling('constraint')
                 for name, val in self.get_constraint_values().items():
                     con = self._cons[name]
                     # The not used fields will either None or a very large number
                     if (con['lower'] is not None) and np.any(con['lower'] > -almost_inf):
-                        diff = val - con['lower']
+                        diff = val - lower_s[name]
                         violation = np.array([0. if d >= 0 else abs(d) for d in diff])
                     elif (con['upper'] is not None) and np.any(con['upper'] < almost_inf):
-                        diff = val - con['upper']
+                        diff = val - upper_s[name]
                         violation = np.array([0. if d <= 0 else abs(d) for d in diff])
                     elif (con['equals'] is not None) and np.any(np.abs(con['equals']) < almost_inf):
-                        diff = val - con['equals']
+                        diff = val - equals_s[name]
                         violation = np.absolute(diff)
                     constraint_violations = np.hstack((constraint_violations, violation))
                 fun = obj + penalty * sum(np.power(constraint_violations, exponent))
